@@ -1,7 +1,7 @@
 (* Props/C15.v -- Phase ordering and decimal I/O use the full two-part value.  Statements only. *)
 From Coq Require Import ZArith QArith Reals Floats Bool String List Sorting.Permutation Sorting.Sorted.
 From Flocq Require Import Core BinarySingleNaN PrimFloat.
-From PB Require Import Proofs.TwoSumExact Model.Phase2 Model.DecStr Proofs.Floor Proofs.PhaseCmp Proofs.PhaseCmpAll Proofs.DecStrProofs Model.PhaseOrd Proofs.PhaseArgmin Proofs.PhaseSort.
+From PB Require Import Proofs.TwoSumExact Model.Phase2 Model.DecStr Proofs.Floor Proofs.PhaseCmp Proofs.PhaseCmpAll Proofs.DecStrProofs Model.PhaseOrd Proofs.PhaseArgmin Proofs.PhaseSort Proofs.PhaseRemainder.
 Open Scope R_scope.
 
 (* comparison branch, bit-exact model: diff = (int1 - int2) + (frac1 - frac2) has exactly the sign of the exact difference
@@ -102,11 +102,24 @@ Proof. intros l G. split; [apply argsort_is|apply argsort_sorted; exact G]. Qed.
 Theorem C15_cycle_order_exact : forall a b, ok_ph a -> ok_ph b -> PrimFloat.ltb (cycle a) (cycle b) = true -> V a < V b.
 Proof. exact cycle_lt_exact. Qed.
 
-(* PARTIAL (carried by the exact correspondence + monitor on every run): that the remainder key orders phases sharing one rounded
-   cycle (finiteness and accuracy of (self - approx).cycle), ptp (Model/PhaseOrd.v is compared index for index and bit for bit),
-   ties of argmin / argmax closer than 2^-50 (first-occurrence rule), the float-level parser (count, frac
-   as doubles) being within 2^-52 of the exact parser above, to_string = exact value rounded to the digits shown,
-   from_string (to_string p) = p. *)
+(* the second key: ok_int q := real, finite, INTEGER count k with |k| <= 2^51 - 3, |frac| <= 1/2 + 2^-50.
+   remainder q = (q - approx).cycle (approx built as a Phase, Phase - Phase, rounding) is finite and within 2^-51 of V q - approx;
+   so argsort / sort put the phases in exact order up to 2^-50 cycles: for any two positions i < j of the result,
+   V (l[out_i]) <= V (l[out_j]) + 2^-50 -- near-ties below the resolution of the rounded cycle included *)
+Theorem C15_remainder : forall p, ok_int p ->
+  fin (remainder p) /\ Rabs (R_of (remainder p) - (V p - R_of (cycle p))) <= bpow radix2 (-51).
+Proof. exact remainder_sound. Qed.
+Theorem C15_argsort_ordered : forall l, Forall ok_int l ->
+  StronglySorted (fun i j => V (nth i l dflt) <= V (nth j l dflt) + bpow radix2 (-50)) (argsort l).
+Proof. exact argsort_ordered. Qed.
+Theorem C15_sort_ordered : forall l, Forall ok_int l ->
+  StronglySorted (fun a b => V a <= V b + bpow radix2 (-50)) (psort l).
+Proof. exact psort_ordered. Qed.
+
+(* PARTIAL (carried by the exact correspondence + monitor on every run): ptp (Model/PhaseOrd.v is compared index for index and bit
+   for bit), ties closer than 2^-50 (first-occurrence / stability rule), counts between 2^51 and 2^52 for the sort theorems, the
+   float-level parser (count, frac as doubles) being within 2^-52 of the exact parser above, to_string = exact value rounded to the
+   digits shown, from_string (to_string p) = p. *)
 
 Print Assumptions C15_diff_sign.
 Print Assumptions C15_comparisons.
@@ -118,3 +131,4 @@ Print Assumptions C15_argmin_exact.
 Print Assumptions C15_argsort_perm.
 Print Assumptions C15_argsort_sorted_partial.
 Print Assumptions C15_cycle_order_exact.
+Print Assumptions C15_argsort_ordered.
